@@ -11,6 +11,9 @@ pub mod c05;
 pub mod c06;
 pub mod c07;
 pub mod c08;
+pub mod c09;
+pub mod c10;
+pub mod c11;
 pub mod refjudge;
 pub mod workload;
 
@@ -40,7 +43,7 @@ pub trait Monitor: Sync + Send {
 }
 
 pub fn registry() -> Vec<Box<dyn Monitor>> {
-    vec![Box::new(c01::C01), Box::new(c02::C02), Box::new(c03::C03), Box::new(c04::C04), Box::new(c05::C05), Box::new(c06::C06), Box::new(c07::C07), Box::new(c08::C08)]
+    vec![Box::new(c01::C01), Box::new(c02::C02), Box::new(c03::C03), Box::new(c04::C04), Box::new(c05::C05), Box::new(c06::C06), Box::new(c07::C07), Box::new(c08::C08), Box::new(c09::C09), Box::new(c10::C10), Box::new(c11::C11)]
 }
 
 pub fn find(id: &str) -> Option<Box<dyn Monitor>> {
